@@ -34,6 +34,7 @@ func c05Content(where string) map[string]interface{} {
 			"allOf", arr(obj("title", t+"/allOf0"), obj("$ref", "other.json#/definitions/x")),
 			"additionalProperties", obj("title", t+"/ap", "not", obj("title", t+"/ap/not")))
 	}
+	defs["bools"] = obj("title", where+":bools", "additionalProperties", false, "additionalItems", true)
 	defs["tuple"] = obj("items", arr(obj("title", where+":t0"), obj("title", where+":t1")), "anyOf", arr(obj("title", where+":any0")),
 		"oneOf", arr(obj("title", where+":one0")), "patternProperties", obj("^x", obj("title", where+":pp")),
 		"dependencies", obj("d", obj("title", where+":dep")), "additionalItems", obj("title", where+":ai"),
@@ -359,7 +360,8 @@ func c05Run(c *Ctx) {
 				}
 			}
 		}
-		for _, ref := range []string{"#/definitions/Missing", "missing.json#/definitions/a", "sib.json#/definitions/a/nope", "../missing.json"} {
+		for _, ref := range []string{"#/definitions/Missing", "missing.json#/definitions/a", "sib.json#/definitions/a/nope", "../missing.json",
+			"#/definitions/bools/additionalProperties/type", "#/definitions/bools/additionalItems/title", "sib.json#/definitions/bools/additionalProperties/not"} {
 			for fn := range map[string]bool{"ResolveRefWithBase": true, "ResolveParameterWithBase": true, "ResolveResponseWithBase": true, "ResolvePathItemWithBase": true, "ResolveItemsWithBase": true} {
 				for _, rm := range rootModes {
 					run(c05Case{Fn: fn, Ref: ref, Root: rm, Kind: "dangling-with-continue", Cont: true})
@@ -369,7 +371,9 @@ func c05Run(c *Ctx) {
 	}
 	// dangling documents
 	if c.Shard == 0 {
-		for _, ref := range []string{"missing.json#/definitions/a", "sub/missing.json", "../missing.json#/parameters/a", "http://h/x/missing.json#/definitions/a", "file:///nowhere/x.json"} {
+		// (with them: pointers that go through a boolean additionalProperties / additionalItems)
+		for _, ref := range []string{"missing.json#/definitions/a", "sub/missing.json", "../missing.json#/parameters/a", "http://h/x/missing.json#/definitions/a", "file:///nowhere/x.json",
+			"#/definitions/bools/additionalProperties/type", "#/definitions/bools/additionalItems/title", "sib.json#/definitions/bools/additionalProperties/not", "#/definitions/bools/additionalProperties/allows", "#/definitions/bools/additionalItems/schema"} {
 			for fn := range map[string]bool{"ResolveRefWithBase": true, "ResolveParameterWithBase": true, "ResolveResponseWithBase": true, "ResolvePathItemWithBase": true, "ResolveItemsWithBase": true} {
 				for _, rm := range rootModes {
 					run(c05Case{Fn: fn, Ref: ref, Root: rm, Kind: "dangling-document"})
